@@ -12,4 +12,43 @@ var Checks = []CheckDef{
 		Stubs:       []string{"github.com/cespare/xxhash/v2.Sum64/Sum64String = UF"},
 		Outside:     []string{"hash collisions", "names longer than the stated part length", "island counts above 65535 on the server API (uint16)"},
 	},
+	{
+		ID: "C15", Title: "Record guard gives exclusive, arrival-ordered access",
+		Harnesses: []HarnessDef{
+			{Pkg: "app/core/hydra/swamp/treasure/guard", Func: "VerifC15Step", Quick: map[string]int{"maxQueue": 4}, Thorough: map[string]int{"maxQueue": 6}, Covers: []string{"end"}},
+			{Pkg: "app/core/hydra/swamp/treasure/guard", Func: "VerifC15Sched", Quick: map[string]int{"threads": 3}, Thorough: map[string]int{"threads": 3}, Preempt: [2]int{2, 3}, Covers: []string{"end"}, NoReplay: true},
+		},
+		Assumptions: []string{"inductive step: pre-states are the queue shapes every history produces (consecutive ids ending at the counter)", "sync.Cond.Signal/Broadcast wake only waiters already enqueued", "preemption-bounded schedules (P=2 quick, 3 thorough), 3 threads"},
+		Stubs:       []string{"sync.Mutex/RWMutex/Cond, sync/atomic = scheduler models"},
+		Outside:     []string{"more than 3 concurrent holders/waiters in the scheduled harness", "schedules needing more preemptions than the bound"},
+	},
+	{
+		ID: "C17", Title: "Lifecycle waits always terminate",
+		Harnesses: []HarnessDef{
+			{Pkg: "app/core/hydra/swamp/vigil", Func: "VerifC17Vigil", Quick: map[string]int{"maxInFlight": 2}, Thorough: map[string]int{"maxInFlight": 3}, Preempt: [2]int{2, 3}, Covers: []string{"end"}, NoReplay: true},
+		},
+		Assumptions: []string{"Cond.Broadcast wakes only waiters already enqueued (as sync.Cond does)", "preemption-bounded schedules"},
+		Stubs:       []string{"sync.RWMutex/Cond, sync/atomic = scheduler models"},
+		Outside:     []string{"more in-flight operations than the bound", "Destroy/WaitForGracefulClose chains (swamp level)"},
+	},
+	{
+		ID: "C14", Title: "Business lock: exclusive, FIFO, TTL-released, deadlock-free",
+		Harnesses: []HarnessDef{
+			{Pkg: "app/core/hydra/lock", Func: "VerifC14Queue", Quick: map[string]int{"maxQueue": 4}, Thorough: map[string]int{"maxQueue": 5}, Covers: []string{"end"}},
+			{Pkg: "app/core/hydra/lock", Func: "VerifC14Lock", Quick: map[string]int{"callers": 2}, Thorough: map[string]int{"callers": 2}, Preempt: [2]int{1, 2}, Covers: []string{"end"}, NoReplay: true},
+			{Pkg: "app/core/hydra/lock", Func: "VerifC14Handover", Quick: map[string]int{"timersNeverFire": 1}, Thorough: map[string]int{"timersNeverFire": 1}, Preempt: [2]int{1, 2}, Covers: []string{"end"}, NoReplay: true},
+		},
+		Assumptions: []string{"TTL timers fire at an arbitrary scheduling point after creation (covers every duration)", "uuid.NewString returns fresh distinct ids", "preemption bound 1 (quick) / 2 (thorough)"},
+		Stubs:       []string{"time.NewTimer = environment event", "context interpreted from source", "google/uuid.NewString = fresh tokens", "sync.Map/Mutex, channels = scheduler models"},
+		Outside:     []string{"more than 3 callers", "gateway-level TTL floor arithmetic"},
+	},
+	{
+		ID: "C28", Title: "Lock and guard bookkeeping does not grow without bound",
+		Harnesses: []HarnessDef{
+			{Pkg: "app/core/hydra/lock", Func: "VerifC28Lock", Quick: map[string]int{"keys": 2}, Thorough: map[string]int{"keys": 3}, Preempt: [2]int{1, 2}, NoReplay: true},
+		},
+		Assumptions: []string{"TTL timers fire at an arbitrary scheduling point"},
+		Stubs:       []string{"time.NewTimer = environment event", "sync.Map = association list model"},
+		Outside:     []string{"guard bookkeeping inside treasures (released with the treasure)"},
+	},
 }
